@@ -249,6 +249,7 @@ LEVEL_TEXT = ('Generated-input search over every transform and both scattering l
               '(None levels and converted modules included), float32-vs-float64 differential runs against the stated bound with '
               'the gain measured from the float64 operator of the same case, equivalence of converted and natively constructed '
               'modules, and strided-vs-contiguous inputs for five view recipes.')
+LEVEL_TEXT += (' Also generated: oriented gratings and diagonal stripes in image geometry, the plain float32 call (nothing requires grad) besides the recording one, amplitudes up to 1e15 for scattering.')
 LEVEL_NOTE = ('The float64 run is the reference; inputs emphasise wide dynamic range and offsets; sizes <= 12x12 (scattering '
               '<= 24x24); scattering gain is an analytic upper bound.')
 TECHNIQUE = 'property-based testing (Hypothesis), differential float32/float64 and strided/contiguous runs with an a-priori error bound'
